@@ -19,8 +19,10 @@ EXTENDS Common, TLC
 
 ReversingMethods == {"rev", "rfind", "rfold", "rposition"}
 ArglessMethods   == {"copied", "enumerate", "flatten", "rev", "count", "next"}
-KnownAdapters    == {"copied", "enumerate", "filter", "map", "rev", "skip", "take", "flatten"}
-KnownConsumers   == {"count", "next", "rfind", "rfold", "rposition", "fold", "find"}
+KnownAdapters    == {"copied", "enumerate", "filter", "filter_map", "flat_map", "flatten", "map", "rev", "skip", "skip_while",
+                     "take", "take_while", "zip"}
+KnownConsumers   == {"all", "any", "count", "find", "find_map", "fold", "for_each", "next", "nth", "position",
+                     "rfind", "rfold", "rposition"}
 
 DslDesc(ms, spurious, unknown) == [methods |-> ms, spurious |-> spurious, unknown |-> unknown]
 NReversing(ms) == Cardinality({q \in 1..Len(ms) : ms[q] \in ReversingMethods})
